@@ -42,6 +42,12 @@ const c13FileTmpl = `[Networks]
             Weight = 1
             RandomizeDstPort = false
             Subnets = ["%s", "%s"]
+    [Networks.2]
+        Generation = 2
+        [[Networks.2.WeightedSubnets]]
+            Weight = 1
+            RandomizeDstPort = false
+            Subnets = ["%s"]
 `
 
 var (
@@ -64,10 +70,10 @@ type c13Env struct {
 func c13Setup(t *testing.T) *c13Env {
 	dir := kit.OutDir()
 	e := &c13Env{fileA: filepath.Join(dir, "c13_subnets_A.toml"), fileB: filepath.Join(dir, "c13_subnets_B.toml")}
-	if err := os.WriteFile(e.fileA, []byte(fmt.Sprintf(c13FileTmpl, c13A4, c13A6)), 0o644); err != nil {
+	if err := os.WriteFile(e.fileA, []byte(fmt.Sprintf(c13FileTmpl, c13A4, c13A6, c13A4)), 0o644); err != nil {
 		t.Fatal(err)
 	}
-	if err := os.WriteFile(e.fileB, []byte(fmt.Sprintf(c13FileTmpl, c13B4, c13B6)), 0o644); err != nil {
+	if err := os.WriteFile(e.fileB, []byte(fmt.Sprintf(c13FileTmpl, c13B4, c13B6, c13B4)), 0o644); err != nil {
 		t.Fatal(err)
 	}
 	lg := logrus.New()
@@ -85,12 +91,19 @@ func (e *c13Env) newProcessor(t testing.TB) *RegProcessor {
 		transports: map[pb.TransportType]lib.Transport{pb.TransportType_Min: min.Transport{}}}
 }
 
+// kinds: v4, v6, dual (generation 1, both families configured) and "v6fail": a dual-stack request for
+// generation 2, which has IPv4 subnets only, so the IPv6 selection fails after the IPv4 one succeeded.
+// Such a request is legitimately answered with an error; what matters is that it leaves nothing locked.
 func c13Request(kind string, secret []byte) *pb.C2SWrapper {
+	gen := uint32(1)
+	if kind == "v6fail" {
+		gen = 2
+	}
 	return &pb.C2SWrapper{
 		SharedSecret: secret,
 		RegistrationPayload: &pb.ClientToStation{
 			ClientLibVersion: proto.Uint32(4), Transport: pb.TransportType_Min.Enum(), CovertAddress: proto.String("192.0.2.1:443"),
-			DecoyListGeneration: proto.Uint32(1), V4Support: proto.Bool(kind != "v6"), V6Support: proto.Bool(kind != "v4"),
+			DecoyListGeneration: proto.Uint32(gen), V4Support: proto.Bool(kind != "v6"), V6Support: proto.Bool(kind != "v4"),
 		},
 	}
 }
@@ -197,7 +210,7 @@ func TestVerifC13Schedules(t *testing.T) {
 	defer rec.Close()
 	env := c13Setup(t)
 	rng := kit.Rand("c13")
-	kinds := []string{"v4", "v6", "dual"}
+	kinds := []string{"v4", "v6", "dual", "v6fail"}
 
 	// the yield callback parks the calling request (identified by goroutine id)
 	var mu sync.Mutex
@@ -352,6 +365,12 @@ func TestVerifC13Schedules(t *testing.T) {
 			}
 		} else {
 			for _, tk := range reqs {
+				if tk.kind == "v6fail" {
+					if tk.err == nil {
+						rec.Violation("unanswerable-request-succeeded", "a request for a generation without IPv6 subnets got an IPv6 phantom", map[string]interface{}{"schedule": label})
+					}
+					continue
+				}
 				if tk.err != nil {
 					rec.Violation("request-failed", "a well-formed request failed while subnets were being reloaded", map[string]interface{}{"schedule": label, "request": tk.name, "err": tk.err.Error()})
 					continue
@@ -397,7 +416,7 @@ func TestVerifC13Stress(t *testing.T) {
 	var progress atomic.Int64
 	var wg sync.WaitGroup
 	var doneFlag atomic.Bool
-	kinds := []string{"v4", "v6", "dual"}
+	kinds := []string{"v4", "v6", "dual", "v6fail"}
 	var gids sync.Map
 	for g := 0; g < requesters; g++ {
 		wg.Add(1)
@@ -406,11 +425,16 @@ func TestVerifC13Stress(t *testing.T) {
 			gids.Store(kit.GoID(), fmt.Sprintf("requester%d", g))
 			rng := kit.Rand(fmt.Sprint("c13-stress-", g))
 			for i := 0; i < iters; i++ {
-				kind := kinds[(i+g)%3]
+				kind := kinds[(i+g)%4]
 				secret := make([]byte, 32)
 				rng.Read(secret)
 				resp, err := p.RegisterBidirectional(c13Request(kind, secret), pb.RegistrationSource_BidirectionalAPI, []byte{203, 0, 113, 5})
-				if err != nil {
+				if kind == "v6fail" {
+					if err == nil {
+						rec.Violation("unanswerable-request-succeeded", "a request for a generation without IPv6 subnets got an IPv6 phantom", nil)
+					}
+					rec.Distinct("nontrivial", kind, "refused")
+				} else if err != nil {
 					rec.Violation("request-failed", "a well-formed request failed while subnets were being reloaded", map[string]interface{}{"err": err.Error(), "kind": kind})
 				} else if c := c13Classify(kind, resp); c != "A" && c != "B" {
 					rec.Violation("mixed-subnet-sets:"+kind, "a response does not lie wholly in the old or wholly in the new subnet set",
